@@ -129,6 +129,13 @@ func projGen1(r *rand.Rand) *project {
 	// setup files and things update-copyright looks at
 	p.Extra["crs-setup.conf.example"] = "# OWASP CRS ver.4.0.0\n# Copyright (c) 2021-2024 CRS project. All rights reserved.\nSecAction \\\n    \"id:900990,\\\n    phase:1,\\\n    setvar:tx.crs_setup_version=400\"\n"
 	p.Extra["plugins/README.md"] = "ver:'OWASP_CRS/4.0.0'\n"
+	// hidden entries next to the assembly files (editor and desktop droppings, a placeholder): they sort in front of
+	// every assembly file and are neither targets nor a reason to stop a walk
+	p.Extra["regex-assembly/.gitkeep"] = ""
+	p.Extra["regex-assembly/.DS_Store"] = "\x00\x01binary"
+	p.Extra["regex-assembly/include/.inc1.ra.swp"] = "b0VIM"
+	p.Extra["regex-assembly/exclude/.gitkeep"] = ""
+	p.Extra["rules/.gitkeep"] = ""
 	return p
 }
 
